@@ -161,6 +161,10 @@ var identityWrappers = map[string]int{
 
 func (u *Unit) describeCall(c *ssa.CallCommon, depth int) string {
 	var args []string
+	if c.IsInvoke() {
+		// interface method call: the receiver is not in Args
+		args = append(args, u.describe(c.Value, depth-2))
+	}
 	for _, a := range c.Args {
 		args = append(args, u.describe(a, depth-2))
 	}
